@@ -47,6 +47,11 @@ Next ==
        \/ t[1] = "multi" /\ t' = <<"polygon", <<>>>>
        \/ t[1] = "long" /\ t' \in {<<"polygon", <<LoopOf(LongLoop(s))>>>> : s \in LongSpec}
        \/ t[1] = "long" /\ t' \in {<<"polygon", <<LoopOf(LongLoop(s)), LoopOf(<<VASeq[1], VASeq[2], VASeq[3]>>)>>>> : s \in LongSpec}
+       \* around the threshold of the size estimate 4n + 26u < 24n (equality at n = 13k, u = 10k):
+       \* ns copies of a snapped vertex followed by nu copies of a vertex that is no cell centre
+       \/ t[1] = "thresh" /\ t' \in {<<"polygon", <<LoopOf([i \in 1..(nsu[1] + nsu[2]) |-> IF i <= nsu[1] THEN a ELSE b])>>>> :
+                                        a \in {x \in VB : VLevel(VOf(x)) >= 0}, b \in {x \in VA : VLevel(VOf(x)) = -1},
+                                        nsu \in {<<3, 10>>, <<4, 9>>, <<2, 11>>, <<1, 3>>, <<1, 4>>, <<2, 7>>, <<3, 9>>, <<6, 20>>, <<5, 21>>}}
        \/ t[1] = "simple" /\ t' \in {<<"cell", c>> : c \in Cells}
        \/ t[1] = "simple" /\ t' \in {<<"cellunion", cs>> : cs \in SeqsUpTo({c \in SmallCells : c.f < 2 /\ Len(c.p) = 1}, 2)}
        \/ t[1] = "simple" /\ t' \in {<<"cellunion", <<DeepCell(3, 1, 2), [f |-> 5, p |-> <<>>], DeepCell(0, 3, 0)>>>>}
